@@ -76,6 +76,11 @@ class Extractor:
         if fn.name == "format_string":
             return self.format_string(fn)
         self.local = {}
+        self.subst = {}
+        self.consts = {}
+        for it, mods, cfgs in A.iter_items(self.f.ast["items"]):
+            if A.kind(it) in ("Item::Const", "Item::Static"):
+                self.consts[it["ident"]["sym"]] = it["expr"]
         cur = "input"
         for a in fn.sig["inputs"]:
             try:
@@ -160,6 +165,12 @@ class Extractor:
                 else:
                     self.lost(fn.name, "a parsing step does not bind the rest of the input")
                 pos[cur] = len(steps)
+            elif k == "Stmt::Item":
+                it = st.get("0", st)
+                if A.kind(it) in ("Item::Const", "Item::Static"):
+                    self.consts[it["ident"]["sym"]] = it["expr"]
+                    continue
+                self.lost(fn.name, "item inside a grammar function")
             elif k == "Stmt::Expr":
                 if not last:
                     self.lost(fn.name, "expression statement before the tail")
@@ -215,6 +226,11 @@ class Extractor:
             if frm != cur:
                 self.lost(fn.name, f"the final parser starts from `{frm}`, not from the latest rest `{cur}`")
             return self.seq_of(steps, p)
+        # TABLE.iter().find_map(|(a, b)| <parser using a, b>(rest)) [.or_else(|| <parser>(rest))]: an ordered choice with
+        # one alternative per row of a constant table
+        alts = self.table_alts(fn, e, cur, pos)
+        if alts is not None:
+            return self.seq_of(steps, N("alt", items=alts))
         # match <parser>(rest) { Some(x) => .., None => Some((rest, DEFAULT)) }   (also if-let/else)
         e2 = A.norm_ast(e) if k == "Expr::If" else e
         if A.kind(e2) == "Expr::Match":
@@ -242,6 +258,88 @@ class Extractor:
                     dv = self.value_expr(fn, d["args"][0]["elems"][1])
                     return self.seq_of(steps, N("commit", p=ap[0], q=q, default=dv))
         self.lost(fn.name, "unexpected tail expression")
+
+    def table_alts(self, fn, e, cur, pos):
+        e = A.peel(e)
+        if A.kind(e) != "Expr::MethodCall":
+            return None
+        m = e["method"]["sym"]
+        if m in ("or_else", "or") and len(e["args"]) == 1:
+            first = self.table_alts(fn, e["receiver"], cur, pos)
+            if first is None:
+                ap = self.applied(fn, A.peel(e["receiver"]), pos)
+                if ap is None or ap[1] != cur:
+                    return None
+                first = [ap[0]]
+            a = e["args"][0]
+            if A.kind(a) == "Expr::Closure":
+                if a["inputs"]:
+                    return None
+                a = a["body"]
+                if A.kind(a) == "Expr::Block" and len(a["block"]["stmts"]) == 1 and A.kind(a["block"]["stmts"][0]) == "Stmt::Expr":
+                    a = a["block"]["stmts"][0]["0"]
+            ap = self.applied(fn, A.peel(a), pos)
+            if ap is None or ap[1] != cur:
+                return None
+            return first + [ap[0]]
+        if m == "find_map" and len(e["args"]) == 1 and A.kind(e["args"][0]) == "Expr::Closure":
+            recv = A.peel(e["receiver"])
+            # TABLE.iter() / TABLE.into_iter() / TABLE
+            if A.kind(recv) == "Expr::MethodCall" and recv["method"]["sym"] in ("iter", "into_iter", "copied", "cloned"):
+                while A.kind(recv) == "Expr::MethodCall" and recv["method"]["sym"] in ("iter", "into_iter", "copied", "cloned"):
+                    recv = A.peel(recv["receiver"])
+            name = A.path_str(recv)
+            table = self.consts.get(name) if name else (recv if A.kind(recv) == "Expr::Array" else None)
+            table = A.peel(table) if table is not None else None
+            if table is None or A.kind(table) != "Expr::Array":
+                return None
+            cl = e["args"][0]
+            params = cl["inputs"][0] if len(cl["inputs"]) == 1 else None
+            if params is None:
+                return None
+            while A.kind(params) in ("Pat::Reference", "Pat::Paren", "Pat::Type"):
+                params = params["pat"]
+            body = cl["body"]
+            if A.kind(body) == "Expr::Block" and len(body["block"]["stmts"]) == 1 and A.kind(body["block"]["stmts"][0]) == "Stmt::Expr":
+                body = body["block"]["stmts"][0]["0"]
+            out = []
+            for row in table["elems"]:
+                row = A.peel(row)
+                binds = {}
+                if A.kind(params) == "Pat::Tuple" and A.kind(row) == "Expr::Tuple" and len(params["elems"]) == len(row["elems"]):
+                    for pp, rv in zip(params["elems"], row["elems"]):
+                        ids = A.pat_idents(pp)
+                        if len(ids) == 1:
+                            binds[ids[0]] = rv
+                elif A.kind(params) == "Pat::Ident":
+                    binds[params["ident"]["sym"]] = row
+                else:
+                    return None
+                saved = self.subst
+                self.subst = dict(saved, **binds)
+                try:
+                    ap = self.applied(fn, A.peel(body), pos)
+                finally:
+                    self.subst = saved
+                if ap is None or ap[1] != cur:
+                    return None
+                out.append(ap[0])
+            return out
+        return None
+
+    def resolve(self, e):
+        """a name bound to a table cell: the expression it stands for (anything else is returned unchanged)"""
+        x = e
+        for _ in range(4):
+            y = x
+            while A.kind(y) in ("Expr::Paren", "Expr::Group", "Expr::Reference") or (A.kind(y) == "Expr::Unary" and A.kind(y["op"]) == "UnOp::Deref"):
+                y = y["expr"]
+            nm = A.path_str(y) if A.kind(y) == "Expr::Path" else None
+            if nm and nm in getattr(self, "subst", {}):
+                x = self.subst[nm]
+                continue
+            break
+        return x
 
     def seq_of(self, steps, final):
         if not steps:
@@ -301,6 +399,16 @@ class Extractor:
             # iter::repeat(()).scan(&mut input, |input, _| { let (curr, f) = P(input)?; **input = curr; Some(f) })
             if A.kind(parent) == "Expr::Try" and assigns:
                 form = "scan"
+        elif any(A.kind(x) == "Expr::Call" and (A.path_str(x["func"]) or "").split("::")[-1] == "from_fn" for x in ps):
+            # iter::from_fn(|| { let (curr, f) = P(input)?; input = curr; Some(f) })
+            if A.kind(parent) == "Expr::Try" and A.path_str(call["args"][0]) == cur:
+                cl = [x for x in ps if A.kind(x) == "Expr::Closure"]
+                nxts = []
+                for st in (cl[-1]["body"]["block"]["stmts"] if cl and A.kind(cl[-1]["body"]) == "Expr::Block" else []):
+                    if A.kind(st) == "Stmt::Local" and st.get("init") is not None and any(x is call for x, _ in A.walk(st["init"]["expr"])):
+                        nxts = A.pat_idents(st["pat"])
+                if nxts and any(A.path_str(a["left"]) == cur and A.path_str(a["right"]) == nxts[0] for a in assigns):
+                    form = "from_fn"
         elif any(A.kind(x) == "Expr::While" for x in ps):
             w = [x for x in ps if A.kind(x) == "Expr::While"][-1]
             cond = w["cond"]
@@ -403,11 +511,13 @@ class Extractor:
         return e["elems"]
 
     def char_lit(self, fn, e):
+        e = self.resolve(e)
         if A.kind(e) == "Expr::Lit" and A.kind(e["lit"]) == "Lit::Char":
             return e["lit"]["token"]["value"]
         self.lost(fn.name, "char(..) argument is not a literal")
 
     def str_lit(self, fn, e):
+        e = self.resolve(e)
         if A.kind(e) == "Expr::Lit" and A.kind(e["lit"]) == "Lit::Str":
             return e["lit"]["token"]["value"]
         self.lost(fn.name, "str(..) argument is not a literal")
@@ -446,13 +556,42 @@ class Extractor:
                 return ("ascii_alnum",)
             # !matches!(c, 'x' | 'y')
             if A.kind(body) == "Expr::Unary" and A.kind(body["op"]) == "UnOp::Not" and A.kind(body["expr"]) == "Expr::Macro" and A.path_last(body["expr"]["mac"]["path"]) == "matches":
-                chars = [t["lit"]["value"] for t in body["expr"]["mac"]["tokens"] if A.kind(t) == "Literal" and t["lit"].get("kind") == "char"]
-                return ("notin", "".join(chars))
+                chars = self.matches_chars(fn, body["expr"]["mac"]["tokens"])
+                return ("notin", chars)
             if A.kind(body) == "Expr::Macro" and A.path_last(body["mac"]["path"]) == "matches":
-                chars = [t["lit"]["value"] for t in body["mac"]["tokens"] if A.kind(t) == "Literal" and t["lit"].get("kind") == "char"]
-                return ("oneof", "".join(chars))
+                chars = self.matches_chars(fn, body["mac"]["tokens"])
+                return ("digit",) if set(chars) == set("0123456789") else ("oneof", chars)
             self.lost(fn.name, f"unknown character predicate closure `{txt}`")
         self.lost(fn.name, "unknown character predicate")
+
+    def matches_chars(self, fn, toks):
+        """the characters `matches!(c, 'a' | 'x'..='z')` accepts (char literals and inclusive ranges of them)"""
+        # skip the scrutinee up to the first top-level comma
+        i = 0
+        while i < len(toks) and not (A.kind(toks[i]) == "Punct" and A.punct_char(toks[i]) == ","):
+            i += 1
+        pat = toks[i + 1 :]
+        out = []
+        j = 0
+        while j < len(pat):
+            t = pat[j]
+            if A.kind(t) == "Literal" and isinstance(t.get("lit"), dict) and t["lit"].get("kind") == "char":
+                lo = t["lit"]["value"]
+                # 'a' ..= 'z'
+                if j + 4 < len(pat) + 1 and [A.punct_char(x) if A.kind(x) == "Punct" else None for x in pat[j + 1 : j + 4]] == [".", ".", "="] and j + 4 < len(pat) and A.kind(pat[j + 4]) == "Literal":
+                    hi = pat[j + 4]["lit"]["value"]
+                    if ord(hi) - ord(lo) > 512:
+                        self.lost(fn.name, "character range too wide")
+                    out += [chr(c) for c in range(ord(lo), ord(hi) + 1)]
+                    j += 5
+                    continue
+                out.append(lo)
+                j += 1
+            elif A.kind(t) == "Punct" and A.punct_char(t) in ("|", ","):
+                j += 1
+            else:
+                self.lost(fn.name, "character pattern in matches! not understood")
+        return "".join(out)
 
     def closure_value(self, fn, cl):
         """the value a `map` closure builds: ('label', 'A::B') | ('pass',) | ('none',) | ('tuple', [..]) | ('capture',)"""
@@ -464,6 +603,9 @@ class Extractor:
         return self.value_expr(fn, v)
 
     def value_expr(self, fn, v):
+        v = self.resolve(v)
+        while A.kind(v) == "Expr::Unary" and A.kind(v["op"]) == "UnOp::Deref":
+            v = self.resolve(v["expr"])
         k = A.kind(v)
         if k == "Expr::Path":
             nm = A.path_str(v)
